@@ -42,6 +42,10 @@ class GenDyn(Gen):
         self.outer_base = self.nested and rng.random() < 0.5
         if self.outer_base:
             sp.append(["R"])           # the nested ItemSpaces P[i].Q[k] replicate R, outside P's tree
+        self.deep = rng.random() < 0.35
+        if self.deep:
+            # two levels of child spaces with the SAME name on two paths: P.C.K and P.E.K
+            sp += [["P", "C", "K"], ["P", "E"], ["P", "E", "K"]]
         mir = {"sp": [list(p) for p in sp], "cells": {tp(p): {} for p in sp},
                "refs": {tp(p): {} for p in sp}, "grefs": {}, "bases": {tp(p): [] for p in sp},
                "span": {tp(p): 0 for p in sp}, "an": False, "inp": {}, "pf": {}}
@@ -58,6 +62,8 @@ class GenDyn(Gen):
         for i, nm in enumerate(names):
             self.rank[nm] = i
             self.sigs[nm] = [] if rng.random() < 0.35 else [["i", 0, 0]]
+        self.rank["v"] = 0
+        self.sigs["v"] = [] if rng.random() < 0.5 else [["i", 0, 0]]
         for nm in ("r", "s", "g", "u"):
             self.refkind[nm] = "int"
         self.refkind["o"] = "obj"
@@ -71,6 +77,11 @@ class GenDyn(Gen):
                               ["ce", ["P"], [], "x"], ["sp", ["S"], [], ""]])
             mir["refs"][("P",)]["o"] = {"v": tgt, "mode": rng.choice(["auto", "relative", "absolute"])
                                         if tgt[1][0] == "P" else rng.choice(["auto", "absolute"])}
+        if rng.random() < 0.5:
+            # a reference defined in the CHILD space that points up / sideways inside P's tree
+            tgt = rng.choice([["sp", ["P"], [], ""], ["ce", ["P"], [], "x"], ["sp", ["P", "C"], [], ""]])
+            mir["refs"][("P", "C")]["oc"] = {"v": tgt, "mode": rng.choice(["auto", "relative", "absolute"])}
+        self.refkind["oc"] = "obj"
         place = {"x": [["P"], ["B"]], "y": [["P"]], "z": [["P", "C"], ["P", "Q"], ["R"]], "w": [["S"]]}
         if ["R"] in sp:
             mir["refs"][("R",)]["s"] = {"v": ["int", rng.choice(INT_VALUES), [], ""], "mode": "auto"}
@@ -87,6 +98,12 @@ class GenDyn(Gen):
             for nm in list(mir["cells"][tp(p)]):
                 mir["cells"][tp(p)][nm] = {"f": self.formula(p, nm), "an": 0,
                                            "cached": rng.random() >= self.p_uncached}
+        if self.deep:
+            for p, base in ((["P", "C", "K"], 1000), (["P", "E", "K"], 2000)):
+                f = self.new_fid({"ps": self.sigs["v"], "ops": [["const", base], ["read", ["p"]],
+                                  ["read", rng.choice([["g"], ["p"], ["_model", "P", "r"]])]],
+                                  "catch": False, "onerr": 900, "style": "def"})
+                mir["cells"][tp(p)]["v"] = {"f": f, "an": 0, "cached": rng.random() >= self.p_uncached}
         return self.defs_json()
 
     def new_pf(self, ps, with_refs, base=None):
@@ -127,6 +144,17 @@ class GenDyn(Gen):
             if sp == ["R"]:
                 ops.append(["read", rng.choice([["s"], ["q"], ["g"], ["p"], ["_space", "s"]])])
                 continue
+            oc = self.mir["refs"].get(("P", "C"), {}).get("oc") if sp == ["P", "C"] else None
+            if oc and k < 0.4:
+                if oc["v"][0] == "ce":
+                    ops.append(["call", ["oc"], [["k", 1] if ps and rng.random() < 0.6 else ["c", rng.choice([0, 1])]
+                                                 for _ in self.sigs["x"]], "pos"])
+                elif oc["v"][1] == ["P"]:
+                    ops.append(rng.choice([["read", ["oc", "r"]], ["read", ["oc", "p"]],
+                                           ["call", ["oc", "x"], [["c", rng.choice([0, 1])] for _ in self.sigs["x"]], "pos"]]))
+                else:
+                    ops.append(["read", ["oc", "s"]])
+                continue
             if k < 0.35 and lower:
                 c = rng.choice(lower)
                 args = [["k", 1] if ps and rng.random() < 0.6 else ["c", rng.choice([0, 1])]
@@ -166,7 +194,11 @@ class GenDyn(Gen):
         k = rng.random()
         if getattr(self, "outer_base", False) and k < 0.5:
             k = 0.4                     # favour the nested instances that replicate R
-        if k < 0.3 and ["P", "C"] in self.mir["sp"]:
+        if getattr(self, "deep", False) and rng.random() < 0.4 and ["P", "E", "K"] in self.mir["sp"] \
+                and ["P", "C", "K"] in self.mir["sp"]:
+            steps.append(["c", rng.choice(["C", "E"]), []])
+            steps.append(["c", "K", []])
+        elif k < 0.3 and ["P", "C"] in self.mir["sp"]:
             steps.append(["c", "C", []])
         elif k < 0.45 and ("P", "Q") in self.mir["pf"] and ["P", "Q"] in self.mir["sp"]:
             steps.append(["c", "Q", []])
